@@ -31,7 +31,7 @@ pub struct Obs {
     pub layout: Option<Layout>,
     pub ident_error: Option<String>,
     pub max_threads: usize,
-    /// run counters after the script [seq, par, dispatch, thread_local]
+    /// run counters after the script [seq, par, dispatch, thread_local, run_now]
     pub runs: Option<Vec<u32>>,
     pub dispatch_panic: Option<String>,
     /// run counters that differ from `runs` when the default pool has that many threads
@@ -40,6 +40,10 @@ pub struct Obs {
     /// after a second setup on a fully populated world
     pub setups2: Option<Vec<u32>>,
     pub disposes: Option<Vec<u32>>,
+    /// the same counters when the dispatcher is set up and disposed through its `RunNow` implementation
+    /// (which is how it is driven when it is registered as a thread-local system of another dispatcher)
+    pub setups_via_run_now: Option<Vec<u32>>,
+    pub disposes_via_run_now: Option<Vec<u32>>,
     /// try_into_sendable: Some(Ok(shape)) / Some(Err(()))
     pub sendable: Option<Result<Vec<Vec<usize>>, ()>>,
     pub shape: Vec<Vec<usize>>,
@@ -124,6 +128,10 @@ pub fn observe(ops: &[Op], resmap: &[u8], need: Need) -> Obs {
             d.dispatch(&world);
             ctx.dispatch_no.store(4, std::sync::atomic::Ordering::Relaxed);
             d.dispatch_thread_local(&world);
+            // a dispatcher is itself something that can be run (it can be registered as a thread-local
+            // system of another dispatcher): that is one more full dispatch
+            ctx.dispatch_no.store(5, std::sync::atomic::Ordering::Relaxed);
+            shred::RunNow::run_now(&mut d, &world);
         }));
         if let Err(p) = r {
             o.dispatch_panic = Some(payload_str(&*p));
@@ -142,6 +150,7 @@ pub fn observe(ops: &[Op], resmap: &[u8], need: Need) -> Obs {
                         d2.dispatch_par(&world);
                         d2.dispatch(&world);
                         d2.dispatch_thread_local(&world);
+                        shred::RunNow::run_now(&mut d2, &world);
                     }));
                     if let Err(p) = r {
                         o.dispatch_panic = Some(format!("default pool of {} threads: {}", n, payload_str(&*p)));
@@ -170,6 +179,21 @@ pub fn observe(ops: &[Op], resmap: &[u8], need: Need) -> Obs {
     }
     if need.setup_dispose && all_ok(&o) {
         o.setup_worlds = setup_worlds(ops, resmap);
+        let ctx3 = Ctx::new(info_n, resmap.to_vec());
+        let reg3 = register(ops, &ctx3, None, false);
+        if let Ok(d3) = build(reg3.builder) {
+            let mut w = World::empty();
+            let r = catch_unwind(AssertUnwindSafe(move || {
+                let mut b: Box<dyn shred::RunNow<'static> + 'static> = Box::new(d3);
+                b.setup(&mut w);
+                b.dispose(&mut w);
+            }));
+            if let Err(p) = r {
+                o.dispatch_panic = Some(format!("setup / dispose through RunNow: {}", payload_str(&*p)));
+            }
+            o.setups_via_run_now = Some(ctx3.setups.lock().unwrap().clone());
+            o.disposes_via_run_now = Some(ctx3.disposes.lock().unwrap().clone());
+        }
     }
     o.harness_errors = ctx.errors.lock().unwrap().clone();
     o
